@@ -7,6 +7,7 @@ import (
 	"github.com/XiXi-2024/xixi-kv/fio"
 	"github.com/XiXi-2024/xixi-kv/index"
 	"github.com/XiXi-2024/xixi-kv/utils"
+	"github.com/bwmarrin/snowflake"
 	"github.com/gofrs/flock"
 	"io"
 	"os"
@@ -28,6 +29,7 @@ type DB struct {
 	seqNo           uint64                        // 事务id
 	isMerging       bool                          // merge 执行状态标识
 	mergeMu         sync.Mutex                    // merge 执行期间持有, Close 需等待正在执行的 merge 结束
+	batchIDNode     *snowflake.Node               // 批处理 ID 生成器, 持有 db.mu 时访问
 	logRecordHeader []byte                        // LogRecord 头部复用缓冲区
 	hintPos         []byte                        // Hint 写入时 Pos 编码复用缓冲区
 	fileLock        *flock.Flock                  // 文件锁
